@@ -50,7 +50,7 @@ def _unfold_elf(t):
     prev = _elfhash(arr, off, k - 1)
     c = z3.Select(arr, off + k - 1)
     h1 = (prev * 16 + c) % 2**32
-    g = h1 / 2**28
+    g = (h1 / 2**28) % 16
     lo = (h1 / 16) % 16
     h2 = h1 + (_z_nibxor(lo, g) - lo) * 16
     return [_elfhash(arr, off, 0) == 0, z3.Implies(k >= 1, t == h2 - g * 2**28)]
